@@ -59,11 +59,12 @@ def gen(ctx):
                 meta.append((sym, level, q, s, 0, p))
         for q in (0, 4) if ctx.tier == 'quick' else (0, 1, 2, 3, 4):
             w = nat + 2 * q
-            for width in list(range(w + 1, w + (70 if ctx.tier == 'quick' else 400))):
+            for width in list(range(w + 1, w + (70 if ctx.tier == 'quick' else 300))):
                 meta.append((sym, level, q, Fraction(1), width, p))
+    scan_from = n + 3 * 18
     for (sym, level, q, s, width, p) in meta[n:]:
         L.append('render %s %d 1 %d %d %d %d %s' % (sym, level, q, s.numerator, s.denominator, width, p.hex()))
-    ctx.c12 = {'meta': meta, 'dropped': 0}
+    ctx.c12 = {'meta': meta, 'dropped': 0, 'scan_from': scan_from}
     return L
 
 
@@ -107,6 +108,8 @@ def oracle(ctx, lines, out):
             continue
         if not gray:
             add('%s:not-grey' % sym, i, 'image is not grey/opaque')
+        if i >= ctx.c12.get('scan_from', 1 << 60) and i % 8:
+            continue   # width scan: dimensions on every line, the pixel-level check on every 8th
 
         def src(x, y):
             mx, my = x - q, y - q
